@@ -16,6 +16,7 @@ the Rust text that exists in /repo *now*:
     PackageTemplate::build_package                   `counterparty_spendable_height` is stored as given
   chain/onchaintx.rs
     update_claims_view_from_requests      `creation_height` registered in `claimable_outpoints`
+    update_claims_view_from_matched_txn   when a pending request is re-issued (`cur_height >= request.timer()`)
     blocks_disconnected                   which `claimable_outpoints` entries / awaiting events are dropped
     OnchainEventEntry::{confirmation_threshold, has_reached_confirmation_threshold}
 
@@ -215,6 +216,12 @@ def main(out_path):
     if not m: raise TranslateError("blocks_disconnected: loop over onchain_events_awaiting_threshold_conf not found")
     L.append('/-- onchaintx.rs blocks_disconnected: an awaiting `Claim` / `ContentiousOutpoint` event is undone iff `%s` -/' % one(m.group(1)))
     L.append('def awaitingDropped (entry_height new_best_height : Nat) : Bool := ' + tr(m.group(1).strip().replace('entry.height', 'entry_height'), {'entry_height', 'new_best_height'}))
+    L.append('')
+    params, ret, body = find_fn(oc, 'update_claims_view_from_matched_txn')
+    m = re.search(r'for \(claim_id, request\) in self\.pending_claim_requests\.iter\(\) \{\s*if ([^{]+)\{\s*bump_candidates\.insert\(\*claim_id, request\.clone\(\)\);', body)
+    if not m: raise TranslateError("update_claims_view_from_matched_txn: the 'must be rescheduled' loop over pending_claim_requests is not in the expected shape")
+    L.append('/-- onchaintx.rs update_claims_view_from_matched_txn: a pending request is re-issued (ForceBump) in the block at `cur_height` iff `%s` -/' % one(m.group(1)))
+    L.append('def timerExpired (cur_height timer : Nat) : Bool := ' + tr(m.group(1).strip().replace('request.timer()', 'timer'), {'cur_height', 'timer'}))
     L.append('')
     i = oc.find('impl OnchainEventEntry')
     if i < 0: raise TranslateError("impl OnchainEventEntry not found in onchaintx.rs")
